@@ -121,6 +121,11 @@ IMPL("impl<'a> Writer<'a>", raw='''
         &&& (r is Ok ==> post.out() == self.out() + bytes)
         &&& (r is Err ==> self.out().is_prefix_of(post.out()))
     }
+    /// same observable state (bytes emitted, capacity, final buffer)
+    #[verifier::prophetic]
+    pub open spec fn state_eq(&self, o: &Self) -> bool {
+        self.out() == o.out() && self.cap() == o.cap() && self.fin() == o.fin() && self.wf() && o.wf()
+    }
     /// frame of any operation on a writer
     #[verifier::prophetic]
     pub open spec fn same_buffer(&self, post: &Self) -> bool {
@@ -163,13 +168,15 @@ FN('available', props=['C02', 'C03', 'C04'], ret='r',
 FN('try_write', props=['C02', 'C03', 'C04'], ret='success',
    requires=[
        ('aux.try_write.wf', 'old(self).wf()'),
-       ('aux.try_write.block_requires', 'forall|w: &mut Self| w.wf() ==> #[trigger] block.requires((w,))'),
-       ('aux.try_write.block_frame', 'forall|w: &mut Self, r: io::Result<()>| #[trigger] block.ensures((w,), r) ==> w.same_buffer(final(w)) && w.out().is_prefix_of(final(w).out())'),
+       # (the premise `state_eq` lets closures written inside loops pin their pre-state to ghost snapshots:
+       #  this Verus version mis-handles old() in the ensures of a closure created inside a loop)
+       ('aux.try_write.block_requires', 'forall|w: &mut Self| w.state_eq(old(self)) ==> #[trigger] block.requires((w,))'),
+       ('aux.try_write.block_frame', 'forall|w: &mut Self, r: io::Result<()>| w.state_eq(old(self)) && #[trigger] block.ensures((w,), r) ==> w.same_buffer(final(w)) && w.out().is_prefix_of(final(w).out())'),
    ],
    ensures=[
        ('aux.try_write.frame', 'old(self).same_buffer(final(self))'),
        ('aux.try_write.rollback', '!success ==> final(self).out() == old(self).out()'),
-       ('aux.try_write.block_ran', 'exists|w2: &mut Self, r: io::Result<()>| *w2 == *old(self) && (r is Ok <==> success) && (success ==> *final(w2) == *final(self)) && #[trigger] block.ensures((w2,), r)'),
+       ('aux.try_write.block_ran', 'exists|w2: &mut Self, r: io::Result<()>| w2.state_eq(old(self)) && (r is Ok <==> success) && (success ==> final(w2).state_eq(final(self))) && #[trigger] block.ensures((w2,), r)'),
    ],
    head='proof { axiom_slice_len(self.0.inner); }',
    )
